@@ -61,7 +61,7 @@ LEVEL_TEXT["C03"] = ("Run decision (first-examination skip, rerun budget clause,
 
 register(
     "C05",
-    modules=["contracts.c16", "contracts.node_getters", "contracts.node_decisions", "contracts.node_edges", "contracts.traversal", "contracts.loop_blocks"],
+    modules=["contracts.c16", "contracts.node_getters", "contracts.node_decisions", "contracts.node_edges", "contracts.traversal", "contracts.loop_blocks", "contracts.sync_states"],
     level="proof",
     explanation="clean decision guard, readiness predicates, sync request discipline",
     trusted=[],
@@ -122,7 +122,7 @@ GRAPH_NOTE = ("The local edge operations every parse is built from (descend_from
               "suite (bounded stand-in, bound in the evidence; never counted as proved).")
 register(
     "C06",
-    modules=["contracts.c16", "contracts.node_edges"],
+    modules=["contracts.c16", "contracts.node_edges", "contracts.graph_clones"],
     bounded=["checks.bounded_hooks:graph_wf"],
     level="other",
     technique="contract-based deductive verification of the edge operations (own VC generator over the real source + z3) "
@@ -135,7 +135,7 @@ register(
 LEVEL_TEXT["C06"] = GRAPH_NOTE
 register(
     "C09",
-    modules=["contracts.c16", "contracts.node_edges"],
+    modules=["contracts.c16", "contracts.node_edges", "contracts.graph_clones"],
     bounded=["checks.bounded_hooks:graph_copies"],
     level="other",
     technique="contract-based deductive verification of bridging and the shared registers (own VC generator + z3) plus a "
@@ -271,3 +271,14 @@ for _pid in ("C01", "C02", "C03", "C04", "C05", "C08"):
     LEVEL_TEXT[_pid] = LEVEL_TEXT[_pid] + (" The schedule-level statement is additionally evaluated on the real traversal "
                                            "under a virtual clock over enumerated scenarios (worker sets, pool populations, "
                                            "durations, failures, retry settings; bounded stand-in, labelled).")
+
+# restriction filters (worker / vm restrictions applied to parsed objects and nodes): bounded stand-in
+for _pid in ("C08", "C11"):
+    PROPS[_pid]["bounded"] = list(PROPS[_pid].get("bounded", [])) + ["checks.bounded_hooks:restr_filter"]
+
+PROPS["C11"].update(
+    modules=["contracts.c16", "contracts.node_edges"], technique=E1_TECHNIQUE,
+    explanation=PROPS["C11"]["explanation"] + " The step that applies a per-object restriction to a parsed test "
+                "(TestNode.update_restrs, loop body extracted) is additionally proved: the restriction line is appended unless "
+                "exactly that line is already present, other objects' restrictions are untouched (E1); the only/no filters over "
+                "objects and nodes are compared with an independent matcher (bounded).")
